@@ -1,6 +1,7 @@
 package main
 
 import (
+	"bytes"
 	"errors"
 	"fmt"
 	"strings"
@@ -98,6 +99,8 @@ func execC14(r *run, c caseT) {
 	}
 	type four struct {
 		s, b, w, u     string
+		wb, wsb        string // ExecuteWriter into a *bytes.Buffer / *strings.Builder holding "PRE"
+		ewb, ewsb      bool
 		es, eb, ew, eu bool
 		panicked       any
 	}
@@ -118,6 +121,16 @@ func execC14(r *run, c caseT) {
 		e3 := tpl.ExecuteWriter(c3, wbuf)
 		res.w, res.ew = wbuf.buf.String(), e3 != nil
 		ewErr = e3
+		// the caller's writer may be any io.Writer, in particular the standard buffers
+		c3b, _ := mkCtx(failAt)
+		bbuf := bytes.NewBufferString("PRE")
+		e3b := tpl.ExecuteWriter(c3b, bbuf)
+		res.wb, res.ewb = bbuf.String(), e3b != nil
+		c3c, _ := mkCtx(failAt)
+		var sbuf strings.Builder
+		sbuf.WriteString("PRE")
+		e3c := tpl.ExecuteWriter(c3c, &sbuf)
+		res.wsb, res.ewsb = sbuf.String(), e3c != nil
 		c4, _ := mkCtx(failAt)
 		ubuf = &recWriter{limit: -1}
 		e4 := tpl.ExecuteWriterUnbuffered(c4, ubuf)
@@ -146,16 +159,16 @@ func execC14(r *run, c caseT) {
 			r.reject(id, "panic ("+tag+")", map[string]any{"template": src, "panic": fmt.Sprint(f.panicked)})
 			return false
 		}
-		if f.es != f.eb || f.es != f.ew || f.es != f.eu {
+		if f.es != f.eb || f.es != f.ew || f.es != f.eu || f.es != f.ewb || f.es != f.ewsb {
 			r.reject(id, "the Execute variants do not fail in the same cases ("+tag+")", detail)
 			return false
 		}
-		if !f.es && !(f.s == f.b && f.s == f.w && f.s == f.u) {
+		if !f.es && !(f.s == f.b && f.s == f.w && f.s == f.u && "PRE"+f.s == f.wb && "PRE"+f.s == f.wsb) {
 			r.reject(id, "the Execute variants do not produce the same bytes ("+tag+")", detail)
 			return false
 		}
 		if f.es {
-			if f.w != "" {
+			if f.w != "" || f.wb != "PRE" || f.wsb != "PRE" {
 				r.reject(id, "ExecuteWriter wrote to the caller's writer although execution failed ("+tag+")", detail)
 				return false
 			}
